@@ -117,6 +117,31 @@ func (p propC04) Gen(r *Rng, tier string) *World {
 			w.Prog = Op(PickS(r, []string{"or", "and"}), w.Prog, g.Leaf(TBool))
 		}
 	}
+	var neutralVars []string
+	neutralVal := false
+	if len(g.by[TBool]) >= 2 && r.P(0.03) {
+		// an and/or of 3-40 operands (the engine treats up to 16 and more than
+		// 16 differently) in which every operand but one is an available,
+		// non-deciding variable and the odd one out sits at a chosen position,
+		// often the last
+		name := PickS(r, []string{"and", "or", "&&", "|"})
+		n := []int{3, 8, 15, 16, 17, 18, 24, 33, 40}[r.Intn(9)]
+		bs := g.by[TBool]
+		odd := bs[r.Intn(len(bs))]
+		kids := make([]*Node, n)
+		for i := range kids {
+			v := bs[r.Intn(len(bs))]
+			for v == odd {
+				v = bs[r.Intn(len(bs))]
+			}
+			kids[i] = Var(v)
+			neutralVars = append(neutralVars, v)
+		}
+		pos := []int{n - 1, n - 1, 0, r.Intn(n)}[r.Intn(4)]
+		kids[pos] = Var(odd)
+		neutralVal = IsAndName(name)
+		w.Prog = Op(name, kids...)
+	}
 	w.Cfg = g.C
 	w.Cfg.ViaDirect = r.P(0.2)
 	w.Cfg.DirStyle = r.Intn(6)
@@ -126,6 +151,9 @@ func (p propC04) Gen(r *Rng, tier string) *World {
 	w.Masks = []int{m1, []int{0, 15, (m1 + 5) % 16}[r.Intn(3)]}
 	w.API = []string{"tryeval", "tryeval", "tryevalbool"}[r.Intn(3)]
 	full := Plan{Bind: g.Binding()}
+	for _, v := range neutralVars {
+		full.Bind[v] = VB(neutralVal)
+	}
 	w.Calls = []Plan{full}
 	w.Extra = map[string]string{}
 	if tier == "thorough" {
